@@ -162,21 +162,33 @@ def _account_transcripts(ck, d, results, site=None):
     return n_cmp, n_p
 
 
-_ITEMS = {}
-
-
 def export_items(d):
-    """Exports Transcript!VerifierItems / ProverItems (0..40 public inputs) with a
-    cheap TLC run (no model checking of the design); cached per process."""
-    if "path" in _ITEMS and os.path.exists(_ITEMS["path"]):
-        return _ITEMS["path"], None
+    """Transcript!VerifierItems / ProverItems (0..40 public inputs) as data.
+    Produced by a cheap TLC run (no model checking of the design) and cached in
+    .work under the digest of the specification files, so that it is re-exported
+    whenever Transcript.tla / TranscriptMC.tla change and only then.
+    Returns (path, TlcResult or None when the cache was used)."""
+    import hashlib
+    import shutil
+    h = hashlib.sha1()
+    for f in ("Transcript.tla", "TranscriptMC.tla", "TranscriptExport.cfg"):
+        h.update(open(os.path.join(vlib.SPEC, f), "rb").read())
+    cached = os.path.join(vlib.WORK, "items-%s.json" % h.hexdigest()[:16])
+    if os.path.exists(cached):
+        try:
+            json.load(open(cached))
+            return cached, None
+        except ValueError:
+            pass
     items = os.path.join(d, "items.json")
     res = vlib.tlc("TranscriptMC", cfg="TranscriptExport.cfg", workers=1, timeout=300,
                    env={"ITEMS_OUT": items})
     if res.violated or not os.path.exists(items):
         raise vlib.ToolError("item export failed:\n" + res.out[-2000:])
-    _ITEMS["path"] = items
-    return items, res
+    tmp = cached + ".%d" % os.getpid()
+    shutil.copy(items, tmp)
+    os.replace(tmp, cached)
+    return cached, res
 
 
 def reference_check(ck, programs, tier="quick", tag="ref"):
